@@ -466,6 +466,8 @@ pub const G_DOCS: &[&str] = &[
     "Well, an test of teh thing.",
     "She said \"an problem\" here. This is an test.",
     "i think so.",
+    "Teh markdwn is here.",
+    "teh MARKDWN is here.",
 ];
 pub const G_RULES: &[&str] = &["ThenThan", "AnA", "SpellCheck", "RepeatedWords"];
 
